@@ -362,6 +362,19 @@ fn attempt(
     res.map_err(|e| (e, count))?;
     let time = parsed.to_naive_time();
     let date = parsed.to_naive_date();
+    // Only fall back to today's date (or to midnight) when the literal says
+    // nothing about the date (the time), not when what it says is impossible.
+    let has_date = parsed.year.is_some()
+        || parsed.month.is_some()
+        || parsed.day.is_some()
+        || parsed.ordinal.is_some()
+        || parsed.isoyear.is_some()
+        || parsed.isoweek.is_some()
+        || parsed.weekday.is_some();
+    let has_time = parsed.hour_div_12.is_some()
+        || parsed.hour_mod_12.is_some()
+        || parsed.minute.is_some()
+        || parsed.second.is_some();
     if let Some(tz) = tz {
         match (time, date) {
             (Ok(time), Ok(date)) => tz
@@ -374,7 +387,7 @@ fn attempt(
                     )
                 })
                 .map(GenericDateTime::Timezone),
-            (Ok(time), Err(_)) => now
+            (Ok(time), Err(_)) if !has_date => now
                 .with_timezone(&tz)
                 .with_time(time)
                 .earliest()
@@ -385,7 +398,7 @@ fn attempt(
                     )
                 })
                 .map(GenericDateTime::Timezone),
-            (Err(_), Ok(date)) => tz
+            (Err(_), Ok(date)) if !has_time => tz
                 .from_local_datetime(&date.and_hms_opt(0, 0, 0).unwrap())
                 .earliest()
                 .ok_or_else(|| {
@@ -414,10 +427,10 @@ fn attempt(
                     )
                 })
                 .map(GenericDateTime::Fixed),
-            (Ok(time), Err(_)) => Ok(GenericDateTime::Fixed(
+            (Ok(time), Err(_)) if !has_date => Ok(GenericDateTime::Fixed(
                 now.with_timezone(&offset).with_time(time).unwrap(),
             )),
-            (Err(_), Ok(date)) => offset
+            (Err(_), Ok(date)) if !has_time => offset
                 .from_local_datetime(&date.and_hms_opt(0, 0, 0).unwrap())
                 .earliest()
                 .ok_or_else(|| {
